@@ -258,6 +258,53 @@ def sim_stage(d, run, what, cmp, invs, nq=40, nt=400, flavors=("sync",)):
     return len(seen)
 
 
+EXH_NAMES = {
+    "exh_q": "every interleaving of client 1 {insert | wait | remove} with client 2 {clear | insert}, one call each, one key, with the fine-grained processor",
+    "exh": "every interleaving of two clients issuing one call each of {insert, clear, wait, remove} on one key, with the fine-grained processor",
+    "exh_life": "every interleaving of client 1 {insert | wait} with client 2 close(), with the processor and the policy worker",
+}
+
+
+def exh_stage(d, run, what, name, cmp, invs, flavors=("sync",)):
+    """Specification -> implementation, EXHAUSTIVELY: TLC enumerates every behaviour of a tiny SIM_Cache configuration (the history
+    variable makes every path a state); each is executed as a schedule on the real cache and the recorded trace validated."""
+    wd = run.workdir
+    r = d.tlc("SIM_Cache.tla", "SIM_Cache_%s.cfg" % name, wd, workers=8, timeout=1800, heap="8g")
+    out = r["out"]
+    bad = re.findall(r"Invariant (\S+) is violated", out)
+    if bad:
+        run.violation("specification Cache.tla violates %s in SIM_Cache_%s" % (bad, name), replay_lines=[out[-8000:]])
+    seen, sched = set(), os.path.join(wd, "sched-%s.ndjson" % name)
+    with open(sched, "w") as f:
+        for line in out.splitlines():
+            m = re.match(r'<<"SCHED", "(.*)">>\s*$', line.strip())
+            if not m:
+                continue
+            js = m.group(1).encode().decode("unicode_escape")
+            if js in seen:
+                continue
+            seen.add(js)
+            f.write(js + "\n")
+    if not seen:
+        raise d.ToolError("TLC enumeration produced no schedule (%s)" % name)
+    run.states += r["distinct"]
+    run.transitions += r["states"]
+    run.notes.setdefault("tlc_runs", []).append({"config": "SIM_Cache_%s: %s" % (name, EXH_NAMES.get(name, "")),
+                                                  "distinct_states": r["distinct"], "states_generated": r["states"],
+                                                  "complete_behaviours_executed_on_the_real_cache": len(seen), "wall_s": round(r["wall"], 1)})
+    cfg = _trace_cfg(run, "trace-" + name, cmp, invs)
+    for fl in flavors:
+        trace = os.path.join(wd, "%s-%s.ndjson" % (name, fl))
+        info = d.vh(["cache", "--sched", sched, "--flavor", fl, "--out", trace], timeout=3000)
+        files = d.split_trace(trace, os.path.join(wd, "chunks-%s-%s" % (name, fl)), start_events=("Init",), max_lines=6000)
+        res = d.validate_chunks("Cache_Trace.tla", cfg, files, wd, par=12, start_events=("Init",))
+        d.report_trace_results(run, res, "%s [every behaviour of SIM_Cache_%s, %s]" % (what, name, fl))
+        run.traces += info.get("instances", 0)
+        run.evaluations += info.get("lines", 0)
+        run.notes["exhaustive_schedules_%s_%s" % (name, fl)] = {k: info.get(k) for k in ("instances", "steps_executed", "steps_skipped", "hung")}
+    return len(seen)
+
+
 FREE_INV = {"FUsedIsSum": ["C01"], "FAgree": ["C06"], "FLen": ["C06"], "FIndexExact": ["C05"], "FReclaimed": ["C05"],
             "FConservation": ["C08"], "FNeverTwice": ["C08"], "FMetrics": ["C17"], "FWorkersGone": ["C12"], "FOpsComplete": ["C12", "C20"]}
 
@@ -311,6 +358,9 @@ def c02(d, run):
                     ["store", "out", "chan"], ["ResidentOwned", "NeverTwice", "NothingLost"], nontrivial=("Get", "GetMut"))
     sim_stage(d, run, "real cache deviates from Cache.tla (lookup results / resident values)", ["store", "out", "chan"],
               ["ResidentOwned", "NeverTwice", "NothingLost"], 30, 300)
+    if _thorough(run):
+        exh_stage(d, run, "real cache deviates from Cache.tla (lookup results / resident values)", "exh_q", ["store", "out", "chan"],
+                  ["ResidentOwned", "NeverTwice", "NothingLost"])
     _need(d, h, ["Get", "GetMut", "InsBegin", "RemStore", "PNewStore"])
     run.nontrivial = len(getattr(run, "_distinct", ()))
     run.rule = ("one evaluation = one recorded critical section of the real cache under the baton scheduler; non-trivial = "
@@ -326,6 +376,9 @@ def c06(d, run):
                     ["store", "costs", "chan"], ["Agree", "UsedIsSum"], nontrivial=("End", "WaitRet", "PWait", "PDelPolicy", "PVictim", "PNewStore"))
     sim_stage(d, run, "real cache deviates from Cache.tla (resident entries vs policy charges)", ["store", "costs", "chan"],
               ["Agree", "UsedIsSum"], 30, 300)
+    exh_stage(d, run, "real cache deviates from Cache.tla (resident entries vs policy charges)", "exh_q", ["store", "costs", "chan"], ["Agree", "UsedIsSum"])
+    if _thorough(run):
+        exh_stage(d, run, "real cache deviates from Cache.tla (resident entries vs policy charges)", "exh", ["store", "costs", "chan"], ["Agree", "UsedIsSum"])
     _need(d, h, ["PNewAdd", "PNewStore", "PDel", "PDelPolicy", "PVictim", "PCleanupKey", "End"])
     run.nontrivial = len(getattr(run, "_distinct", ()))
     run.rule = ("one evaluation = one recorded critical section; non-trivial = quiescent points reached (end of run after drain, "
@@ -341,6 +394,9 @@ def c08(d, run):
                     ["store", "cbs", "chan", "costs"], ["Conservation", "NeverTwice", "NothingLost", "ResidentOwned"], nontrivial=("PVictim", "PDelPolicy", "PCleanupDone", "RemStore", "PCleanItem", "PNewStore", "InsBegin"))
     sim_stage(d, run, "real cache deviates from Cache.tla (callbacks / value conservation)", ["store", "cbs", "chan", "costs"],
               ["Conservation", "NeverTwice", "NothingLost", "ResidentOwned"], 30, 300)
+    if _thorough(run):
+        exh_stage(d, run, "real cache deviates from Cache.tla (callbacks / value conservation)", "exh", ["store", "cbs", "chan", "costs"],
+                  ["Conservation", "NeverTwice", "NothingLost", "ResidentOwned"])
     _need(d, h, ["PNewStore", "PVictim", "PDelPolicy", "PCleanupDone", "RemStore"])
     run.nontrivial = len(getattr(run, "_distinct", ()))
     run.rule = ("one evaluation = one recorded critical section, with the callbacks (kind, value id, cost) fired inside it; "
@@ -366,6 +422,11 @@ def c10(d, run):
                     ["chan", "out", "store", "costs"], ["NoOrphan", "Agree"], nontrivial=("WaitSend", "WaitBlock", "WaitRet", "PWait", "PCleanItem", "PStop"))
     sim_stage(d, run, "real cache deviates from Cache.tla (wait barrier / termination)", ["chan", "out", "store", "costs"],
               ["NoOrphan", "Agree"], 40, 400)
+    if _thorough(run):
+        exh_stage(d, run, "real cache deviates from Cache.tla (wait barrier / termination)", "exh_life", ["chan", "out", "store", "costs"],
+                  ["NoOrphan", "Agree"], flavors=("sync", "async"))
+        exh_stage(d, run, "real cache deviates from Cache.tla (wait barrier / termination)", "exh", ["chan", "out", "store", "costs"],
+                  ["NoOrphan", "Agree"])
     _need(d, h, ["WaitSend", "WaitBlock", "PWait", "PCleanItem", "PStop"])
     run.nontrivial = len(getattr(run, "_distinct", ()))
     run.rule = ("non-trivial = wait() calls; each must return exactly when the specification releases its marker, with the "
@@ -385,6 +446,9 @@ def c12(d, run):
               flavors=("sync", "async"))
     free_stage(d, run, "the real background loops violate a state predicate of Cache.tla (worker termination)",
                [("sync", "thread", 4, 24), ("async", "thread", 4, 24)])
+    if _thorough(run):
+        exh_stage(d, run, "real cache deviates from Cache.tla (close protocol)", "exh_life", ["life", "out", "chan", "store"], ["NoOrphan"],
+                  flavors=("sync", "async"))
     _need(d, h, ["ClsStopSend", "PStop", "LStop", "ClsFlag", "ClsStopFail"])
     run.nontrivial = len(getattr(run, "_distinct", ()))
     run.rule = ("non-trivial = close()/clear() calls racing other operations; every result after close, every blocking point "
@@ -492,6 +556,11 @@ def c11(d, run):
                     ALL_CMP, ["IndexExact", "Agree", "UsedIsSum", "MetricsLaws", "ResidentOwned", "ClearEmpties"], nontrivial=("ClrSend", "ClrPolicy", "ClrStore", "ClrMetrics", "PClrTake", "PCleanItem"))
     sim_stage(d, run, "real cache deviates from Cache.tla (clear)", ALL_CMP,
               ["IndexExact", "Agree", "UsedIsSum", "MetricsLaws", "ResidentOwned", "ClearEmpties"], 30, 300, flavors=("sync", "async"))
+    exh_stage(d, run, "real cache deviates from Cache.tla (clear)", "exh_q", ALL_CMP,
+              ["IndexExact", "Agree", "UsedIsSum", "MetricsLaws", "ResidentOwned", "ClearEmpties"])
+    if _thorough(run):
+        exh_stage(d, run, "real cache deviates from Cache.tla (clear)", "exh", ALL_CMP,
+                  ["IndexExact", "Agree", "UsedIsSum", "MetricsLaws", "ResidentOwned", "ClearEmpties"], flavors=("sync", "async"))
     _need(d, h, ["ClrSend", "ClrStore", "ClrMetrics", "PClrTake", "PCleanItem"])
     run.nontrivial = len(getattr(run, "_distinct", ()))
     run.rule = ("non-trivial = clear() calls with 0..buffer-size items pending, the processor and a second client interleaved at every "
@@ -606,6 +675,7 @@ def c19(d, run):
     sim_stage(d, run, "real AsyncCache deviates from Cache.tla", ALL_CMP, ALL_INV, 30, 300, flavors=("async",))
     free_stage(d, run, "AsyncCache's real background tasks violate a state predicate of Cache.tla",
                [("async", "thread", 4, 24), ("async", "pool", 4, 24), ("async", "local", 4, 24), ("sync", "thread", 4, 8)])
+    exh_stage(d, run, "real AsyncCache deviates from Cache.tla", "exh_q", ALL_CMP, ALL_INV, flavors=("async",))
     _need(d, h, ["RemSendA", "RemRet", "PStop", "LStop", "ClsStopSend", "PCleanupKey", "PVictim"])
     # same sequential histories on both flavours: observable results must be identical
     pairs = 0
